@@ -2,18 +2,28 @@
 
 The BEFORE UPDATE trigger on `attempts` touches its timestamps only through order comparisons, IS NULL tests and copies
 (checked syntactically, R0).  Its effect is therefore determined by the weak ordering + NULL pattern of the three OLD
-timestamps and the (at most two) fresh timestamp parameters a writer supplies, together with the reason values.  R1 executes
-the *parsed* trigger body (our interpreter; MySQL three-valued logic) on every such pattern for every writer statement of the
-four columns found in the effective SQL program / embedded SQL, starting from every OLD row that satisfies the invariant
-Inv, and checks the clauses of the statement on the stored row:
+timestamps and the fresh timestamp parameters a writer supplies, together with the reason values.  R1 executes the *parsed*
+trigger body over that finite order domain (engines/attemptfacts.py; MySQL three-valued logic) for every writer statement of the
+four columns found in the effective SQL program / embedded SQL, starting from every OLD row that satisfies the invariant Inv,
+and checks the clauses of the statement on the stored row:
    (a) Inv is inductive:  rollup, end non-NULL  =>  rollup <= end
    (b) start only moves earlier; it becomes NULL only for an activation timeout
    (c) once OLD.reason is set: end' = OLD.end  or  end' < OLD.end   (the statement constrains the end time, not the reason text)
    (d) billed = max(rollup - start, 0) does not decrease for any numeric realisation of the ordering, unless the report is an
        activation timeout or establishes an end earlier than what was already billed
    (e) end' non-NULL  =>  billed' <= max(end' - start', 0)
+   (f) start_time is never stored as the literal 0 (a default for a missing start would bill from 1970)
+The value a writer assigns may be an expression over its parameters: it is evaluated symbolically per ordering class
+(NULL propagation of + - GREATEST LEAST, first non-NULL of COALESCE/IFNULL, IF/CASE on order predicates, max/min-of-linear-forms
+normal form that must collapse to one of the symbols: x + GREATEST(y - x, 0) = max(x, y) and is NULL when x is NULL);
+expressions that are not order-domain values (constant offsets, products) are declined.  The NULL class of each parameter and
+the reason literals come from the Python call chains (followed through forwarding parameters).
 R2  the billed expression in both billing triggers is GREATEST(COALESCE(rollup - start, 0), 0)   (non-negativity)
 R3  every write of the four columns is an UPDATE of attempts (so the trigger runs); INSERT INTO attempts sets none of them
+R4  clauses (b) and (d) exempt reports whose reason makes the trigger erase a timestamp ('activation_timeout': bills nothing).  That is
+    only right for an instance that never activated: every Python call that names such a literal must be dominated, on some hop of the
+    chain down to the CALL, by tests that confine <instance>.state to the states that precede activation (guard dominance: enclosing
+    if-branches, earlier exiting ifs, asserts; single-definition locals expanded; and/or/not/in/== over string literals).
 Not decided: clock skew between worker and driver timestamps (values are arbitrary here anyway).
 """
 from __future__ import annotations
@@ -37,7 +47,8 @@ META = dict(
          'OLD timestamps and each writer\'s fresh parameters, x reason patterns) for every writer statement found in the code; each (writer, clause) is an '
          'obligation. Sound because the trigger uses timestamps only through comparisons and copies, so its behaviour is a function of the ordering.',
     note='Trusted: SQL parser and evaluator; MySQL BEFORE UPDATE semantics (NEW row = SET list applied to OLD, then the trigger); one arithmetic fact: '
-         'max(r - s, 0) is monotone in r and antitone in s.  Parameter NULL-ness and reason values are taken from the Python call sites where resolvable, otherwise unconstrained.',
+         'max(r - s, 0) is monotone in r and antitone in s.  Parameter NULL-ness and reason values are taken from the Python call sites where resolvable, otherwise unconstrained. '
+         'mark_job_errored is assumed to report an attempt that has not been billed yet (recorded assumption); R4 trusts that the in-memory instance state does not change between its test and the CALL.',
     technique='static analysis: exhaustive abstract interpretation of the trigger AST over a finite order domain (no solver, code not run)',
     design_ref='DESIGN.md §3 C03',
 )
@@ -303,6 +314,37 @@ def _subjects(call: ast.Call) -> List[str]:
     return out
 
 
+def _tracked_subjects(frames: Tuple[af.Frame, ...]) -> List[List[Optional[str]]]:
+    """For each object named at the innermost hop: the expression that denotes the same object at every outer hop (None where the
+    binding cannot be followed).  `self` of a method maps to the receiver of the call, a parameter to the argument bound to it."""
+    out: List[List[Optional[str]]] = []
+    for cand in _subjects(frames[-1].call):
+        per: List[Optional[str]] = [None] * len(frames)
+        per[-1] = cand
+        cur = cand
+        for k in range(len(frames) - 2, -1, -1):
+            callee, call = frames[k + 1].fn, frames[k].call
+            if callee is None:
+                break
+            root, _, rest = cur.partition('.')
+            rest = ('.' + rest) if rest else ''
+            if '(' in root or '[' in root:
+                break
+            if root in ('self', 'cls') and af._is_method(callee):
+                if not isinstance(call.func, ast.Attribute):
+                    break
+                outer = pf.nsrc(call.func.value) + rest
+            else:
+                how, a = af.bound_arg(call, callee, root)
+                if how != 'arg' or a is None:
+                    break
+                outer = pf.nsrc(a) + rest
+            per[k] = outer
+            cur = outer
+        out.append(per)
+    return out
+
+
 def r4_zeroing_reason_precondition(ctx: Ctx, prog: sf.SqlProgram, trig: sf.Routine, ws: List[Writer], zeroing: Dict[str, List[str]], special: List[str]) -> None:
     if not zeroing:
         ctx.ok('R4', f'{trig.file}::attempts_before_update::no reason literal erases a timestamp', nontrivial=False)
@@ -331,6 +373,8 @@ def r4_zeroing_reason_precondition(ctx: Ctx, prog: sf.SqlProgram, trig: sf.Routi
             pc = calls[name]
             m, fn, expr, call = pc.m, pc.e.fn, pc.bind[w.rsym], pc.e.call
         for value, frames, note in af.trace_strings(m, fn, expr, (af.Frame(m, fn, call),)):
+            if value is None and note != 'None':
+                raise AnalysisError(f'{w.wid}: a reason value reaching this statement is not a resolvable string literal ({note}); cannot tell whether {sorted(zeroing)} is reported')
             if value is None or value not in zeroing:
                 continue
             src = frames[0]
@@ -342,10 +386,9 @@ def r4_zeroing_reason_precondition(ctx: Ctx, prog: sf.SqlProgram, trig: sf.Routi
             verdicts = []
             opaque: List[str] = []
             ok = False
-            for fr in frames:
-                if fr.fn is None:
-                    continue
-                conds = path_conditions(fr.m, fr.fn, fr.call)
+            conds_of = [path_conditions(fr.m, fr.fn, fr.call) if fr.fn is not None else [] for fr in frames]
+            # (1) one hop alone confines the state of an object it passes on
+            for fr, conds in zip(frames, conds_of):
                 for subj in _subjects(fr.call):
                     facts = StateFacts(subj)
                     acc = TOP
@@ -356,6 +399,22 @@ def r4_zeroing_reason_precondition(ctx: Ctx, prog: sf.SqlProgram, trig: sf.Routi
                         ok = True
                     elif acc != TOP:
                         verdicts.append((fr, subj, acc))
+            # (2) the same object followed through the hops (argument / receiver binding): its constraints add up
+            if not ok:
+                for per in _tracked_subjects(frames):
+                    acc = TOP
+                    for subj, conds in zip(per, conds_of):
+                        if subj is None:
+                            continue
+                        facts = StateFacts(subj)
+                        for t, pol in conds:
+                            acc = _inter(acc, facts.when_true(t) if pol else facts.when_false(t))
+                    if acc[0] and acc[1] <= pending:       # includes the empty set: the hops exclude each other, the CALL is never reached
+                        ok = True
+                        break
+                    if acc != TOP:
+                        first = next(i for i, x in enumerate(per) if x is not None)
+                        verdicts.insert(0, (frames[first], per[first], acc))
             chain = ' -> '.join(f.label.split('::', 1)[1] for f in frames) + f' -> {w.wid}'
             if ok:
                 ctx.ok('R4', cons, {'chain': chain, 'never_activated_states': sorted(pending)})
